@@ -10,6 +10,7 @@ Adv == l' = l + 1
 Report == (l > 1 /\ bad # {}) => Say("VERDICT", Trace[l - 1].t, bad)
 Begin == Is("begin") /\ Report /\ Compile([full |-> "", noloc |-> "", apps |-> ""]) /\ Adv
 Model == Is("model") /\ Compile([full |-> Ev.full, noloc |-> Ev.noloc, apps |-> Ev.apps]) /\ Adv
+Edited == Is("edited") /\ Edit([full |-> Ev.full, noloc |-> Ev.noloc, apps |-> Ev.apps]) /\ Adv
 EvPrior == Is("prior") /\ Prior(Ev.fmt, Ev.compact, Ev.ok, Ev.full) /\ Adv
 EvEncode == Is("encode") /\ Encode(Ev.fmt, Ev.compact, Ev.ok) /\ Adv
 EvDecode == Is("decode") /\ Decode(Ev.fmt, Ev.compact, Ev.ok, Ev.full, Ev.noloc) /\ Adv
@@ -19,7 +20,7 @@ EvForeign == Is("foreign") /\ Foreign(Ev.okjson, Ev.okyaml, Ev.appsjson, Ev.apps
 \* a generated program the compiler refuses is not this family's concern
 EvSkip == Is("compilefail") /\ UNCHANGED vars /\ Adv
 End == l = Len(Trace) + 1 /\ Report /\ UNCHANGED vars /\ l' = l + 1
-Next == Begin \/ Model \/ EvPrior \/ EvEncode \/ EvDecode \/ EvJson \/ EvReimport \/ EvSkip \/ EvForeign \/ End
+Next == Begin \/ Model \/ Edited \/ EvPrior \/ EvEncode \/ EvDecode \/ EvJson \/ EvReimport \/ EvSkip \/ EvForeign \/ End
 TraceSpec == Init /\ l = 1 /\ [][Next]_<<vars, l>>
 Consumed == TLCSet(1, l)
 AllConsumed == TLCGet(1) >= Len(Trace) + 1
